@@ -327,6 +327,12 @@ def oracle_c10(sc, out):
                 break
             hits = [s for s in sends if ty in s[2] and lo <= s[0] <= due + D]
             if not hits:
+                # "until it expires": the only thing that may hold a due step back is the browser's own rate limit (its previous query, of
+                # any type, less than the configured delay earlier); when that pushes the step to or past the record's expiry there is
+                # nothing left to refresh
+                prior = [s[0] for s in sends if s[0] <= due]
+                if prior and max(due, max(prior) + D) >= expiry:
+                    break
                 return (f"pointer {alias} learned at +{c - t0} with ttl {ttl}: no refresh query for {ty} in [+{lo - t0}, +{due + D - t0}] "
                         f"(step {step}: 75 % of the TTL plus {step} x 10 %); queries for the type at {[s[0] - t0 for s in sends if ty in s[2]][-8:]}"), ()
             on_time = [h for h in hits if h[0] >= due]
